@@ -2096,6 +2096,124 @@ def translate_interval(repo):
     return head + btxt + "\n\nend Ixai.Gen\n", [INTERVAL_FILE], sha
 
 
+# ----------------------------------------------------------------------------------------------------------------
+# TreeImputer._sample_from_storages (ixai/imputer/tree_imputer.py), the `use_storage=True` path, over the tree oracle:
+#   self.storage_object(feature_name) -> the oracle handle ; self.storage_object.data_reservoirs[feature_name] -> `rs`
+#   self.storage_object.get_path_through_tree(model._root, x_i) -> parameter `leaf` ; random.randint(0, len(l) - 1) -> parameter `pick`
+#   self._sample(feature_name=.., x_i=..) (the tree's own prediction) -> parameter `fallback`
+#   try: <assignments> except KeyError: <assignment>  ->  an `Option` block: a dict lookup that misses (and, totalised, a list index out of
+#   range) leaves the block, the handler's value is used
+# ----------------------------------------------------------------------------------------------------------------
+TREE_IMP_FILE = "ixai/imputer/tree_imputer.py"
+
+
+def translate_tree_imputer(repo):
+    text = open(os.path.join(repo, TREE_IMP_FILE)).read()
+    tree = ast.parse(text, filename=TREE_IMP_FILE)
+    cls = [n for n in tree.body if isinstance(n, ast.ClassDef) and n.name == "TreeImputer"]
+    fns = [n for n in (cls[0].body if cls else []) if isinstance(n, ast.FunctionDef) and n.name == "_sample_from_storages"]
+    if len(fns) != 1:
+        raise Unsupported(f"{TREE_IMP_FILE}: TreeImputer._sample_from_storages not found")
+    fn = fns[0]
+
+    def err(node, msg):
+        raise Unsupported(f"{TREE_IMP_FILE}:{getattr(node, 'lineno', '?')}: {msg}: `{ast.unparse(node)[:80]}`")
+    if [a.arg for a in fn.args.args[1:]] != ["feature_name", "x_i", "n_samples"]:
+        err(fn, "signature changed")
+    env = {"feature_name": ("feature_name", "Nat"), "x_i": ("x_i", "Inst")}
+
+    def expr(e):
+        u = ast.unparse(e)
+        if isinstance(e, ast.Name) and e.id in env:
+            return env[e.id]
+        if u == "self.storage_object(feature_name)":
+            return "((), ())", "Handle2"
+        if u == "self.storage_object.data_reservoirs[feature_name]":
+            return "rs", "Rs"
+        if isinstance(e, ast.Call) and ast.unparse(e.func) == "self.storage_object.get_path_through_tree" and len(e.args) == 2 \
+                and ast.unparse(e.args[1]) == "x_i" and isinstance(e.args[0], ast.Attribute) and e.args[0].attr == "_root" \
+                and expr(e.args[0].value)[1] == "Handle":
+            return "leaf", "Nat"
+        if isinstance(e, ast.Call) and ast.unparse(e.func) == "self._sample":
+            kw = {k.arg: ast.unparse(k.value) for k in e.keywords}
+            pos = [ast.unparse(a) for a in e.args]
+            if (kw.get("feature_name", pos[0] if pos else None), kw.get("x_i", pos[1] if len(pos) > 1 else None)) != ("feature_name", "x_i"):
+                err(e, "the fall-back is sampled for something other than (this feature, this instance)")
+            return "fallback", "V"
+        if isinstance(e, ast.Call) and ast.unparse(e.func) == "random.randint" and len(e.args) == 2 and ast.unparse(e.args[0]) == "0" \
+                and isinstance(e.args[1], ast.BinOp) and isinstance(e.args[1].op, ast.Sub) and ast.unparse(e.args[1].right) == "1" \
+                and isinstance(e.args[1].left, ast.Call) and ast.unparse(e.args[1].left.func) == "len" \
+                and expr(e.args[1].left.args[0])[1] == "ListInst":
+            return "pick", "Nat"
+        if isinstance(e, ast.Call) and isinstance(e.func, ast.Attribute) and e.func.attr == "get_data" and not e.args \
+                and expr(e.func.value)[1] == "Res":
+            r = expr(e.func.value)[0]
+            return f"({r}.storage_x, {r}.storage_y)", "Pair"
+        if isinstance(e, ast.Subscript):
+            b, bt = expr(e.value)
+            k, kt = expr(e.slice)
+            if bt == "Rs" and kt == "Nat":
+                return f"(← findR {b} {k})", "Res"                 # may miss: KeyError
+            if bt == "ListInst" and kt == "Nat":
+                return f"(← {b}[{k}]?)", "Inst"                   # out of range: totalised as a miss
+            if bt == "Inst" and kt == "Nat":
+                return f"({b} {k})", "V"
+        err(e, "unsupported expression")
+
+    def assign(s, lines):
+        if not (isinstance(s, ast.Assign) and len(s.targets) == 1):
+            err(s, "unsupported statement")
+        tg = s.targets[0]
+        v, t = expr(s.value)
+        if isinstance(tg, ast.Name):
+            env[tg.id] = (tg.id, t)
+            lines.append(f"let {tg.id} := {v}")
+        elif isinstance(tg, ast.Tuple) and len(tg.elts) == 2 and all(isinstance(x, ast.Name) for x in tg.elts) and t in ("Handle2", "Pair"):
+            a, b = tg.elts[0].id, tg.elts[1].id
+            env[a] = (a, "Handle" if t == "Handle2" else "ListInst")
+            env[b] = (b, "Unit")
+            lines.append(f"let ({a}, _) := {v}")
+        else:
+            err(s, "unsupported assignment")
+        return tg
+
+    body = [s for s in fn.body if not (isinstance(s, ast.Expr) and isinstance(s.value, ast.Constant))]
+    lines = []
+    result = None
+    for s in body:
+        if isinstance(s, ast.Try):
+            if len(s.handlers) != 1 or ast.unparse(s.handlers[0].type) != "KeyError" or s.orelse or s.finalbody or len(s.handlers[0].body) != 1:
+                err(s, "unsupported try statement")
+            inner = []
+            last = None
+            for st in s.body:
+                last = assign(st, inner)
+            hv, ht = expr(s.handlers[0].body[0].value)
+            htg = s.handlers[0].body[0].targets[0]
+            if not (isinstance(last, ast.Name) and isinstance(htg, ast.Name) and last.id == htg.id and env[last.id][1] == "V" and ht == "V"):
+                err(s, "the try body and the handler do not end by binding the same value")
+            lines.append(f"let attempt : Option V := do")
+            lines += ["  " + x for x in inner] + [f"  pure {last.id}"]
+            lines.append(f"let {last.id} := match attempt with | some v_ => v_ | none => {hv}")
+        elif isinstance(s, ast.Return):
+            v, t = expr(s.value)
+            if t != "V":
+                err(s, "returns something other than a feature value")
+            result = v
+        else:
+            assign(s, lines)
+    if result is None:
+        err(fn, "no return")
+    sha = hashlib.sha256(text.encode()).hexdigest()[:16]
+    head = (f"/-\n  GENERATED by tools/py2lean_eff.py from {TREE_IMP_FILE} — do not edit.\n  sha256: {sha}\n"
+            "  `TreeImputer._sample_from_storages` statement by statement over the tree oracle (routed leaf, drawn index, the tree's own prediction).\n-/\n"
+            "import IxaiVerif.Model.Tree\n\nnamespace Ixai.Gen\nopen Ixai Ixai.Tree\n\n"
+            "variable {K : Type} [Add K] [Sub K] [Mul K] [Div K] [NatCast K] [OfNat K 0] [OfNat K 1] [LE K] [DecidableLE K]\n\n"
+            "def TreeImputer._sample_from_storages {V : Type} (rs : Reservoirs K (Nat → V)) (feature_name : Nat) (x_i : Nat → V) (leaf pick : Nat)\n"
+            "    (fallback : V) : V := Id.run do\n")
+    return head + "\n".join("  " + x for x in lines) + f"\n  return {result}\n\nend Ixai.Gen\n", [TREE_IMP_FILE], sha
+
+
 class Source:
     def __init__(self, repo, files=None):
         self.repo = repo
@@ -2207,6 +2325,16 @@ def generate(repo=None, outdir=None):
         report["BatchSage"] = {"sources": rels, "sha256": sha, "changed": old != text}
     except (Unsupported, SyntaxError, OSError) as ex:
         report["BatchSage"] = {"sources": [BATCH_FILES["BatchSage"]], "sha256": "", "changed": False, "error": str(ex)}
+    try:
+        text, rels, sha = translate_tree_imputer(repo)
+        path = os.path.join(outdir, "TreeImputerStorage.lean")
+        old = open(path).read() if os.path.exists(path) else None
+        if old != text:
+            with open(path, "w") as fh:
+                fh.write(text)
+        report["TreeImputerStorage"] = {"sources": rels, "sha256": sha, "changed": old != text}
+    except (Unsupported, SyntaxError, OSError, IndexError, KeyError) as ex:
+        report["TreeImputerStorage"] = {"sources": [TREE_IMP_FILE], "sha256": "", "changed": False, "error": str(ex)}
     try:
         text, rels, sha = translate_interval(repo)
         path = os.path.join(outdir, "IntervalSage.lean")
